@@ -412,6 +412,56 @@ def run(ctx):
                 W2 = lc.to_np(prob.variables['W_2'].value)
                 la_lines.append(f"nuclear {nx} {p} {lc.mat_tok(W1)} {lc.mat_tok(U)} {lc.mat_tok(W2)}")
             la_meta.append((kind, big, {'kind': kind, 'nx': nx, 'p': p}))
+        # the witness of C12_nuclear_epigraph / C12_twonorm_epigraph handed to the code's OWN constraints: for the SVD
+        # U = Q diag(s) Z^T the point W_1 = Q diag(s) Q^T, W_2 = Z diag(s) Z^T, gamma = sum s (two-norm: gamma = max s) must
+        # satisfy every constraint _add_nuclear / _add_twonorm adds, with the trace constraint tight - and gamma a little
+        # smaller must not
+        for i in range(ctx.n(12, 150)):
+            rng = ctx.rng
+            nx, p = rng.randint(1, 4), rng.randint(1, 5)
+            import picos
+            rs = np.random.RandomState(rng.randint(0, 2 ** 31 - 1))
+            U = rs.randn(nx, p) * rng.choice([0.01, 1.0, 50.0])
+            if rng.random() < 0.3 and min(nx, p) > 1:
+                U[-1] = U[0]                      # rank-deficient
+            Q, sv, Zt = np.linalg.svd(U, full_matrices=False)
+            for kind in ('nuclear', 'twonorm'):
+                for shrink in (1.0, 1.0 - 1e-3):
+                    prob = picos.Problem()
+                    Uv = picos.RealVariable('U', (nx, p))
+                    prob.set_objective('min', Uv[0, 0])
+                    prob = (lmi._add_nuclear if kind == 'nuclear' else lmi._add_twonorm)(prob, Uv, 1.0, False, 0)
+                    Uv.value = U
+                    gam = (float(np.sum(sv)) if kind == 'nuclear' else float(np.max(sv))) * shrink
+                    for name, var in prob.variables.items():
+                        if name == 'gamma':
+                            var.value = gam
+                        elif name == 'W_1':
+                            var.value = (Q * sv) @ Q.T * shrink
+                        elif name == 'W_2':
+                            var.value = (Zt.T * sv) @ Zt * shrink
+                    slack = []
+                    for lhs, rhs, rel in lc.constraint_blocks(prob):
+                        d = np.atleast_2d(lhs - rhs)
+                        if '≽' in rel:
+                            slack.append(float(np.linalg.eigvalsh((d + d.T) / 2).min()))
+                        elif '≼' in rel:
+                            slack.append(float(-np.linalg.eigvalsh((d + d.T) / 2).max()))
+                        elif '≤' in rel:
+                            slack.append(float(-d.max()))
+                        elif '≥' in rel:
+                            slack.append(float(d.min()))
+                        else:
+                            slack.append(float('nan'))        # an unknown relation: reported below
+                    tol = 1e-9 * max(1.0, float(np.max(sv)))
+                    ctx.count(f'structure:witness of the {kind} epigraph theorem fed to the code ({"tight" if shrink == 1.0 else "just below"})')
+                    if shrink == 1.0 and (not slack or not all(v >= -tol for v in slack)):
+                        ctx.mismatch(f'{kind} block: the feasible point of the epigraph theorem (W from the SVD, gamma = '
+                                     f'{"sum" if kind == "nuclear" else "max"} sigma) violates a constraint the code adds',
+                                     {'kind': kind, 'U': U.tolist()}, slack, '>= 0')
+                    if shrink < 1.0 and kind == 'twonorm' and slack and min(slack) > -1e-7 * float(np.max(sv)):
+                        ctx.mismatch('twonorm block: a gamma below the largest singular value is feasible',
+                                     {'kind': kind, 'U': U.tolist()}, slack, '< 0')
         # LmiDmdc base problem in SVD coordinates
         for i in range(ctx.n(24, 300)):
             d = dmdc_structure_case(ctx)
